@@ -15,7 +15,8 @@ RULE = ("Hypothesis-generated (observations, ensemble) pairs: n forecasts x m "
         "of mean(E|X-y| - 0.5 E|X-X'|), 0.5 mean|y-y'|, the decomposition "
         "identities, sign constraints, table consistency, and for tie-free "
         "data reliability / potential written from Hersbach (2000) Eq. 26-37. "
-        "Non-trivial = a tie "
+        "A second sub-check runs long records (n = 46341 .. 92683, n^2 beyond "
+        "2^31 / 2^33) against O(n log n) references. Non-trivial = a tie "
         "(member-member or member-observation) or an outlier forecast or "
         "m <= 2; distinct = distinct serialised case.")
 
@@ -295,7 +296,48 @@ def oracle(case):
     return {"nt": ties_mm or ties_mo or outl or m <= 2, "labels": labels}
 
 
+def enum_large(tier):
+    """Long records (n*n beyond 2^31 and 2^33): the pairwise uncertainty
+    term and the weights 1/n are formed from n."""
+    ns = [46341] if tier == "quick" else [46341, 50000, 65537, 92683]
+    for n in ns:
+        for m in ([2] if tier == "quick" else [1, 3]):
+            yield {"n": n, "m": m, "seed": n + m}
+
+
+def large_oracle(case):
+    n, m = case["n"], case["m"]
+    rng = np.random.RandomState(case["seed"])
+    obs = np.round(rng.normal(size=n) * 4) / 2         # ties included
+    ens = obs[:, None] + np.round(rng.normal(size=(n, m)) * 4) / 2
+    d, t = metrics.crps(obs.copy(), ens.copy())
+    x = ens
+    ref = np.mean(np.mean(np.abs(x - obs[:, None]), axis=1)
+                  - 0.5 * np.mean(np.abs(x[:, :, None] - x[:, None, :]),
+                                  axis=(1, 2)))
+    s = np.sort(obs)
+    # 0.5 mean|y - y'| = sum_i (2i - n - 1) y_(i) / n^2
+    unc = float(np.sum((2.0 * np.arange(1, n + 1) - n - 1) * s)) / n / n
+    tol = 1e-9 * max(1.0, np.abs(obs).max())
+    if not close(d["crps"], ref, tol):
+        raise Violation(f"n={n}: crps {d['crps']!r} != definition {ref!r}")
+    if not close(d["uncertainty"], unc, tol):
+        raise Violation(f"n={n}: uncertainty {d['uncertainty']!r} != "
+                        f"0.5 mean|y-y'| = {unc!r}")
+    if not close(d["crps"], d["reliability"] + d["potential"], tol) or \
+            not close(d["resolution"], d["uncertainty"] - d["potential"],
+                      tol):
+        raise Violation(f"n={n}: decomposition identities broken: "
+                        f"{d.to_dict()}")
+    for k in ("reliability", "potential", "uncertainty"):
+        if d[k] < -tol:
+            raise Violation(f"n={n}: {k} negative: {d[k]!r}")
+    return {"nt": True, "labels": [f"n:{n}"]}
+
+
 SUBS = [
+    Sub("C03.long-records", large_oracle, enumerate=enum_large,
+        shards=(1, 8)),
     Sub("C03.definition+decomposition+metamorphic", oracle, strategy=cases,
         n=(750, 12000), shards=(4, 16)),
 ]
